@@ -39,6 +39,11 @@ func (i ItemCollection) IRIs() IRIs {
 
 	iris := make(IRIs, 0, len(i))
 	for _, it := range i {
+		if IsNil(it) && !IsIRI(it) {
+			// NOTE(marius): a nil member has no link, the list keeps its place with an empty one
+			iris = append(iris, EmptyIRI)
+			continue
+		}
 		iris = append(iris, it.GetLink())
 	}
 	return iris
